@@ -11,6 +11,9 @@ use crate::subscriptions::{
 use crate::topics::{RemoveSubscriptionError, Topic, TopicMessage, TopicName};
 use futures::future::Shared;
 use futures::FutureExt;
+#[cfg(deltio_verif)]
+use crate::verif::Mutex;
+#[cfg(not(deltio_verif))]
 use parking_lot::Mutex;
 use std::sync::{Arc, Weak};
 use tokio::sync::{mpsc, oneshot, Notify};
